@@ -324,6 +324,97 @@ PROPS["C15"] = dict(
     assumptions=PROPS["C01"]["assumptions"],
 )
 
+GEOM_LAWS = {"1": "C19:compound-assignment-differs-from-binary-operator", "2": "v - v is not exactly zero",
+             "3": "(v + u) - v differs from u by more than rounding", "4": "dot product not symmetric",
+             "5": "cross product not antisymmetric", "6": "cross product not orthogonal to its arguments",
+             "7": "orientation product has the wrong sign outside the rounding band",
+             "8": "unit_dir contract broken", "9": "normal_dir contract broken", "10": "average not symmetric / not between",
+             "11": "skewness contract broken"}
+
+
+def geom_family(pid, tier, seed):
+    """C19: operators (model vs implementation, f64) + laws (implementation only, f64 and f32)."""
+    import re, struct
+    out = os.path.join(hc.BUILD, "run", pid, "geom")
+    shutil.rmtree(out, ignore_errors=True)
+    os.makedirs(out)
+    res = dict(name="geom", evaluations=0, cases=0, nontrivial=0, diffs=[], oracle_fail=[], oracle_ok=0, oracle_skipped=0,
+               oracle_unreadable=0, samples=[], hist={}, error=None, exhaustive=False)
+    gen = open(os.path.join(hc.COQ, "theories", "Geom", "GenGeom.v")).read()
+    m = re.search(r"Definition geom_ops : list string := \[(.*?)\]%string", gen, re.S)
+    names = re.findall(r'"([^"]+)"', m.group(1))
+    opsfile = os.path.join(out, "geom_ops.txt")
+    open(opsfile, "w").write("\n".join(names) + "\n")
+    n = {"quick": 20000, "thorough": 400000}[tier]
+    rc, log = hc.sh([hc.hbin("geom"), "--out", out, "--seed", str(seed), "--cases", str(n), "--opsfile", opsfile], timeout=1500)
+    if rc != 0:
+        res["error"] = "geom harness failed: " + log[-500:]
+        return [res]
+    unc = [l for l in open(os.path.join(out, "uncovered.txt")).read().split() if l]
+    if unc:
+        res["error"] = "operators translated from the source but unknown to the harness: %s" % unc
+    cases = hc.read_cases(os.path.join(out, "cases.txt"))
+    impl = hc.read_obs(os.path.join(out, "impl.txt"))
+    model = hc.run_driver(20, ["%s %s" % kv for kv in cases.items()])
+    res["cases"] = len(cases)
+    fl = lambda t: struct.unpack(">d", bytes.fromhex(t[1:]))[0]
+    hist = {}
+    for (cid, k), line in impl.items():
+        opi = int(cases[cid].split()[0])
+        nm = names[opi]
+        hist[nm] = hist.get(nm, 0) + 1
+        mo = model.get((cid, 0))
+        if mo == line:
+            continue
+        ok = False
+        if nm.endswith("_norm") and mo is not None:
+            # hypot / sqrt come from libm: tolerance of 4 ulp instead of bit equality
+            a, b = [fl(t) for t in line.split()], [fl(t) for t in mo.split()]
+            ok = len(a) == len(b) and all(abs(x - y) <= 4 * 2.0 ** -52 * max(abs(x), abs(y), 1e-300) for x, y in zip(a, b))
+        if not ok and len(res["diffs"]) < 50:
+            res["diffs"].append(dict(case=cid, step=0, op=nm, case_line=cases[cid], impl=line, model=mo))
+    res["hist"] = {"operator": hist}
+    res["nontrivial"] = len(set(cases.values()))
+    laws = [l.rstrip("\n") for l in open(os.path.join(out, "laws.txt"))]
+    verd = hc.run_driver(21, laws)
+    lhist = {}
+    bylaw = {l.split(" ", 1)[0]: l for l in laws}
+    for (lid, _), v in verd.items():
+        t = v.split()
+        lhist[t[1] if len(t) > 1 else "?"] = lhist.get(t[1] if len(t) > 1 else "?", 0) + 1
+        if t[0] == "1":
+            res["oracle_ok"] += 1
+        elif t[0] == "0":
+            line = bylaw[lid]
+            res["oracle_fail"].append(dict(oracle="geom_law", cls=GEOM_LAWS.get(t[1], t[1]), case=lid, step=0, case_line=line,
+                                           decoded=[fl(x) if x.startswith("f") else x for x in line.split()[1:]][:24]))
+        else:
+            res["oracle_unreadable"] += 1
+    res["hist"]["laws_checked"] = lhist
+    res["evaluations"] = len(impl) + len(laws)
+    res["samples"] = ["%s %s" % kv for kv in list(cases.items())[:2]] + laws[:2]
+    return [res]
+
+
+PROPS["C19"] = dict(
+    level="proof",
+    level_text="the vector/vertex operator impls, dot, cross, average, orientation product are TRANSLATED from the Rust source on "
+               "every run (tools/tr_geom.py) into Gallina over an abstract scalar; proved: every compound assignment = its "
+               "binary operator (any scalar), v - v = +0 in IEEE arithmetic of any format (Flocq), and over the rationals the "
+               "exact identities behind the 'up to rounding' clauses (add/sub, dot symmetry, cross antisymmetry and "
+               "orthogonality, orientation = determinant, average symmetric and between). Rounding bounds, unit/normal "
+               "direction and skewness clauses: extracted Coq law checker (exact dyadic arithmetic) on every implementation "
+               "observation, f64 and f32 (partial, see DESIGN.md)",
+    technique="translator (Rust -> Gallina) + Coq proofs over Q and Flocq + extracted law checker on implementation observations",
+    translators=True,
+    families=[],
+    extra=[geom_family],
+    trusted=["Coq 8.16.1 kernel; Flocq 4.1.0", "translator tools/tr_geom.py", "extraction + OCaml driver",
+             "Rust harness geom.rs (operand pools, one closure per operator name)",
+             "hypot/sqrt/acos of libm are outside the repository (norm compared with 4 ulp tolerance)"],
+    assumptions=["no overflow / underflow in the sampled operands (moderate magnitudes)"],
+)
+
 ALLOC_CLASSES = {"1": "allocation id or counts wrong", "2": "appended slot not blank", "3": "C18:stale-slot-on-reuse",
                  "4": "removal wrongly accepted or refused", "5": "unrelated state changed by allocation/removal",
                  "6": "reused slot not free or still flagged"}
@@ -369,7 +460,7 @@ def check(pid, tier, seed):
     if not ok:
         print("INFRA: model extraction/build failed\n" + log[-2000:])
         return 2
-    for crate in sorted(set(f.crate for f in cfg["families"])):
+    for crate in sorted(set([f.crate for f in cfg["families"]] + cfg.get("crates", ["harness"]))):
         ok, log = hc.build_harness(crate)
         if not ok:
             # the harness is built against /repo's public API: a compile failure is a broken tie
